@@ -18,15 +18,17 @@ namespace ptd = pika::threads::detail;
 namespace pika {
     [[noreturn]] void throw_exception(error e, std::string const&, std::string const&) { verif_detail::throw_exception(e); }
 }
+#include </repo/libs/pika/threading_base/src/get_default_pool.cpp>    // real get_self_or_default_pool
 namespace pika::threads::detail {
-    static long self_dummy;
-    thread_id_type get_self_id() { return thread_id_type(&self_dummy); }
-    thread_data* get_self_id_data() { return reinterpret_cast<thread_data*>(&self_dummy); }
+    // the submitter is a non-pika OS thread ("created from outside the runtime"): no self, the default-pool handler decides
+    thread_id_type get_self_id() { return invalid_thread_id; }
+    thread_data* get_self_id_data() { return nullptr; }
     void thread_data::run_thread_exit_callbacks() {}
     void thread_data::free_thread_exit_callbacks() {}
     ::pika::detail::thread_description get_thread_description(thread_id_type const&, error_code&) { return ::pika::detail::thread_description(); }
 }    // namespace pika::threads::detail
 
+static verif_pool* default_pool;
 static void const* running_in_pool;    // set while the harness runs a spawned task (= "on a worker of that pool")
 static int signals, value_seen, ran_f, submitting;
 static void const* f_pool;
@@ -62,6 +64,8 @@ extern "C" void plc_main()
 {
     verif_pool* A = new verif_pool();
     verif_pool* B = new verif_pool();
+    default_pool = A;    // what a pool-less register_work would pick for this submitter
+    ptd::set_get_default_pool([]() -> pika::threads::detail::thread_pool_base* { return default_pool; });
     bool useB = verif_nondet_range(0, 1);
     verif_pool* target = useB ? B : A;
     ex::thread_pool_scheduler sched(target);
